@@ -354,3 +354,79 @@ contract(
           "column (distinct meaningful names joined by commas) is executed but not specified here -- the bounded C03 "
           "contracts check it; iter_slices is assumed (see its contract)",
 )
+
+
+# ----------------------------------------------------------------------------- deductive: HaarSeg's breakpoint bookkeeping
+_K = "(i_ + 1)"
+_SUSPECT = ("(SV is None or (1 <= some(SV) and some(SV) < K and (len(peakLoc) == 0 or peakLoc[len(peakLoc) - 1] < some(SV)) and "
+            "signal[some(SV)] SIGN 0 and forall(0, len(signal), lambda t: implies(some(SV) <= t and t <= K, signal[t] == signal[some(SV)]))))")
+contract(
+    "cnvlib/segmentation/haar.py::FindLocalPeaks",
+    params=dict(signal=VecT(Real)),
+    returns=VecT(Int),
+    requires=[],
+    loops={0: dict(
+        vars=dict(peakLoc=VecT(Int, kind="list"), maxSuspect=Opt(Int), minSuspect=Opt(Int)),
+        inv=[("positions_so_far", "forall(0, len(peakLoc), lambda j: 1 <= peakLoc[j] and peakLoc[j] < K and "
+                                  "implies(j + 1 < len(peakLoc), peakLoc[j] < peakLoc[j + 1]))".replace("K", _K)),
+             ("open_maximum_plateau", _SUSPECT.replace("SV", "maxSuspect").replace("SIGN", ">").replace("K", _K)),
+             ("open_minimum_plateau", _SUSPECT.replace("SV", "minSuspect").replace("SIGN", "<").replace("K", _K))])},
+    ensures=[
+        # the breakpoint candidates are interior positions in strictly increasing order (no position twice)
+        ("interior_positions", "forall(0, len(result), lambda j: 1 <= result[j] and result[j] <= len(signal) - 2)"),
+        ("strictly_increasing", "forall(0, len(result), lambda j: implies(j + 1 < len(result), result[j] < result[j + 1]))"),
+    ],
+    props=("C03",), domain="skip",
+    canaries=[("first_index_considered", "for k in range(1, len(signal) - 1):", "for k in range(0, len(signal) - 1):"),
+              ("plateau_start_reported_twice", "                    peakLoc.append(maxSuspect)\n                    maxSuspect = None",
+               "                    peakLoc.append(maxSuspect)"),
+              ("plateau_start_kept_after_a_rise", "            elif (sig_curr == sig_prev) and (sig_curr < sig_next):\n                maxSuspect = None",
+               "            elif (sig_curr == sig_prev) and (sig_curr < sig_next):\n                pass")],
+    notes="HaarSeg's candidate breakpoints: the invariant keeps, for an open plateau, its start after the last reported "
+          "position and the signal constant from there to the current index",
+)
+
+_JL = "joinedLevel"
+_INC = "forall(0, len(V), lambda j: implies(j + 1 < len(V), V[j] < V[j + 1]))"
+_FROM = ("forall(0, len(V), lambda j: exists(0, len(baseLevel), lambda b: V[j] == baseLevel[b]) or "
+         "exists(0, len(addonLevel), lambda a: V[j] == addonLevel[a]))")
+_BASES_IN = "forall(0, BI, lambda b: exists(0, len(V), lambda j: V[j] == baseLevel[b]))"
+contract(
+    "cnvlib/segmentation/haar.py::UnifyLevels",
+    params=dict(baseLevel=VecT(Int), addonLevel=VecT(Int), windowSize=Int),
+    returns=VecT(Int),
+    requires=["windowSize >= 0", _INC.replace("V", "baseLevel"), _INC.replace("V", "addonLevel")],
+    loops={
+        0: dict(vars=dict(joinedLevel=VecT(Int, kind="list")),
+                inv=[("cursor", "0 <= addon_idx and addon_idx <= len(addonLevel)"),
+                     ("increasing", _INC.replace("V", _JL)),
+                     ("from_the_inputs", _FROM.replace("V", _JL)),
+                     ("bases_kept", _BASES_IN.replace("V", _JL).replace("BI", "i_")),
+                     ("last_is_the_previous_base", "implies(i_ > 0, len(joinedLevel) > 0 and joinedLevel[len(joinedLevel) - 1] == baseLevel[i_ - 1]) and "
+                                                   "implies(i_ == 0, len(joinedLevel) == 0)"),
+                     ("bounded_by_the_previous_base", "forall(0, len(joinedLevel), lambda j: implies(i_ > 0, joinedLevel[j] <= baseLevel[i_ - 1]))"),
+                     ("next_addon_beyond_the_window", "implies(i_ > 0 and addon_idx < len(addonLevel), addonLevel[addon_idx] > baseLevel[i_ - 1] + windowSize)")]),
+        1: dict(inv=[("cursor", "0 <= addon_idx and addon_idx <= len(addonLevel)"),
+                     ("skipped_within_the_window", "implies(len(baseLevel) > 0 and addon_idx < len(addonLevel), True)")]),
+        2: dict(vars=dict(joinedLevel=VecT(Int, kind="list")),
+                inv=[("cursor", "0 <= addon_idx and addon_idx <= len(addonLevel)"),
+                     ("increasing", _INC.replace("V", _JL)),
+                     ("from_the_inputs", _FROM.replace("V", _JL)),
+                     ("bases_kept", _BASES_IN.replace("V", _JL).replace("BI", "i0_")),
+                     ("below_the_current_base", "forall(0, len(joinedLevel), lambda j: joinedLevel[j] < base_elem)"),
+                     ("last_below_the_next_addon", "len(joinedLevel) == 0 or addon_idx == len(addonLevel) or "
+                                                   "joinedLevel[len(joinedLevel) - 1] < addonLevel[addon_idx]")]),
+    },
+    ensures=[
+        ("strictly_increasing", _INC.replace("V", "result")),
+        ("from_the_inputs", _FROM.replace("V", "result")),
+        ("bases_kept", _BASES_IN.replace("V", "result").replace("BI", "len(baseLevel)")),
+    ],
+    props=("C03",), domain="skip",
+    canaries=[("window_ignored", "if addon_elem < base_elem - windowSize:", "if addon_elem <= base_elem:"),
+              ("addon_equal_to_base_kept", "elif base_elem - windowSize <= addon_elem <= base_elem + windowSize:", "elif base_elem - windowSize <= addon_elem < base_elem:"),
+              ("base_dropped", "        joinedLevel.append(base_elem)", "        pass"),
+              ("tail_not_skipped", "while addon_idx < len(addonLevel) and addonLevel[addon_idx] <= last_pos:", "while False:")],
+    notes="merging two levels of breakpoints: the result is strictly increasing (no breakpoint twice, so no empty segment), "
+          "made of input positions only and keeps every base-level breakpoint; sorted() of an ordered list is the list",
+)
